@@ -5,6 +5,7 @@ FS = "frequenz.sdk.timeseries.formula_engine._formula_steps"
 RS = "frequenz.sdk.timeseries._resampling"
 BPM = "frequenz.sdk.timeseries.battery_pool._metric_calculator"
 PVM = "frequenz.sdk.microgrid._power_distributing._component_managers._pv_inverter_manager._pv_inverter_manager:PVManager"
+RBUF = "frequenz.sdk.timeseries._ringbuffer.buffer:OrderedRingBuffer"
 FEV = "frequenz.sdk.timeseries.formula_engine._formula_evaluator"
 FENG = "frequenz.sdk.timeseries.formula_engine._formula_engine"
 ACTM = "frequenz.sdk.actor._actor"
@@ -298,5 +299,22 @@ PROPS = {
                      "irrelevant under it (receive returns the same sample whatever the interleaving)",
                      "two input streams (structural bound); timestamps counted in grid steps; asyncio.wait(ALL_COMPLETED) model",
                      "not under contract: FormulaEngine._run (one send per successful apply)"],
+    ),
+    "C09": dict(
+        modules=["ts_ringbuffer"],
+        contracts=[f"{RBUF}.normalize_timestamp", f"{RBUF}.wrap"],
+        lemmas=[],
+        bounded=[dict(kind="native_script", name="OrderedRingBuffer vs abstract sliding time-indexed map",
+                      module="native.explore_ringbuffer")],
+        level="other",
+        explanation="PROVED (deductive, unbounded): normalize_timestamp rounds to the nearest grid slot, ties to the even slot, "
+                    "fixed on aligned timestamps; wrap() is the slot modulo the capacity. BOUNDED (never counted as proved): "
+                    "the real OrderedRingBuffer is driven through every update history of a small scope and seeded random "
+                    "longer ones and compared after every update with an abstract sliding map (rejections, is_missing per slot, "
+                    "count_valid, oldest/newest, gap-list sanity) and on datetime (aligned/unaligned) and index window queries.",
+        assumptions=[EXTRACTION, "sampling periods with an even number of microseconds (timedelta / 2 is then exact)",
+                     "gap-list maintenance (_update_gaps/_cleanup_gaps/_remove_gap: in-place mutation of aliased Gap objects "
+                     "while deleting) and window assembly over numpy/list slices are outside the verifier's subset: bounded only",
+                     "MovingWindow's thin wrappers not under contract"],
     ),
 }
